@@ -184,7 +184,7 @@ def net_tables_snapshot(net, include_res=True):
     return snap
 
 
-def frames_equal(a, b, check_dtype=True):
+def frames_equal(a, b, check_dtype=True, float_atol=0.0, float_rtol=0.0):
     if list(a.columns) != list(b.columns):
         return "columns %s vs %s" % (list(a.columns), list(b.columns))
     if not a.index.equals(b.index):
@@ -195,6 +195,12 @@ def frames_equal(a, b, check_dtype=True):
         if check_dtype and a[c].dtype != b[c].dtype:
             return "dtype of %s: %s vs %s" % (c, a[c].dtype, b[c].dtype)
         x, y = a[c].values, b[c].values
+        if (float_atol or float_rtol) and a[c].dtype.kind == "f" and b[c].dtype.kind == "f":
+            ok = (np.isnan(x) & np.isnan(y)) | (x == y) | (np.abs(x - y) <= float_atol + float_rtol * np.abs(y))
+            if not np.all(ok):
+                i = int(np.flatnonzero(~ok)[0])
+                return "cell %s: %r vs %r" % (c, x[i], y[i])
+            continue
         for u, w in zip(x, y):
             if _cell_ne(u, w):
                 return "cell %s: %r vs %r" % (c, u, w)
